@@ -720,7 +720,7 @@ fn step(cx: &mut Ctx, slots: &mut [Slot], op: &Op, twin: bool) {
         }
         Op::Reset { slot } => {
             let s = &mut slots[*slot as usize];
-            let st = gstate_of(&format!("{:?}", s.g));
+            let st = if cfg!(miri) { GState::default() } else { gstate_of(&format!("{:?}", s.g)) };
             if st.known {
                 if st.start > 0 {
                     cx.probe("reset.after_elim");
@@ -757,9 +757,11 @@ fn step(cx: &mut Ctx, slots: &mut [Slot], op: &Op, twin: bool) {
 }
 
 fn fin_step(cx: &mut Ctx, s: &mut Slot, slot: u8, twin: bool) {
-    let before = format!("{:?}", s.g);
+    // (Debug rendering of a generator is far too slow under Miri; the state
+    // comparison and the coverage probes are skipped there.)
+    let before = if cfg!(miri) { String::new() } else { format!("{:?}", s.g) };
     let ra = fin_all(&s.g);
-    let after = format!("{:?}", s.g);
+    let after = if cfg!(miri) { String::new() } else { format!("{:?}", s.g) };
     let st = gstate_of(&after);
     probe_state(cx, &st);
     cx.ev(true, format_args!("fin s{} size={} {}", slot, s.g.input_size(), show_all(&ra)));
@@ -886,7 +888,7 @@ fn fin_step(cx: &mut Ctx, s: &mut Slot, slot: u8, twin: bool) {
 }
 
 fn declare_step(cx: &mut Ctx, s: &mut Slot, slot: u8, size: u64, usize_api: bool) {
-    let before = format!("{:?}", s.g);
+    let before = if cfg!(miri) { String::new() } else { format!("{:?}", s.g) };
     let call = |g: &mut Generator| -> Result<(), GeneratorError> {
         if usize_api {
             match usize::try_from(size) {
@@ -923,7 +925,7 @@ fn declare_step(cx: &mut Ctx, s: &mut Slot, slot: u8, size: u64, usize_api: bool
                 format!("declare({}) with previous declaration {:?} returned {:?}", size, s.declared, r),
             );
         }
-        let after = format!("{:?}", s.g);
+        let after = if cfg!(miri) { String::new() } else { format!("{:?}", s.g) };
         if before != after {
             cx.fail(
                 "C12.hint_refused_unchanged",
@@ -1039,6 +1041,9 @@ fn shot_step(cx: &mut Ctx, s: &Slot, slot: u8, kind: &Shot, twin: bool) {
             }
             let spec = FileSpec { open: Ok(()), meta: Ok(all.len() as u64), script, scribble: *scribble, sticky: true, tail: *tail };
             let fr = run_hash_file(&all, &spec);
+            if let Some(m) = &fr.panic {
+                panic!("hash_file panicked: {}", m);
+            }
             let txt = match &fr.result {
                 Ok(h) => format!("Ok({})", h),
                 Err(e) => format!("Err({})", e),
